@@ -144,6 +144,14 @@ CHECKS = {
                       'with the same item as find(); size()/empty() equal the number of present keys where an item counter is configured; EllenBinTree and BronsonAVLTreeMap check_consistency() (search-tree order, AVL balance, witness of the imbalanced node)',
         'level_note': 'trusted base as C13; split-order of SplitList traversal and the per-level ordering of skip-list towers are not inspected (would need protected members); trees without iterators are checked through check_consistency() and lookups only',
     },
+    'C17': {
+        'technique': 'runtime monitoring by model-based differential execution: sequential insert/erase cases with degenerate hash tuples, the whole content compared with std::set after EVERY operation; each case in a forked child under an address-space limit and an alarm (expiry = inconclusive); ASan/UBSan',
+        'level_text': 'Seeded cases = family (CuckooSet list/vector probe sets ordered/unordered; StripedSet std::list/vector/set with load-factor and single-bucket-threshold policies; SplitListSet expandable and static tables; FeldmanHashSet) x parameters '
+                      '(initial size 1-64, probe-set size 2-4 and threshold, load factor 1-4, head/array bits 2-8) x hash tuple (identity, constant, k mod m, (k/d) mod m, high bits only, spreading; identical functions for cuckoo; Feldman: keys shifted so they collide on all chunks but one) '
+                      'x dense/sparse key set x 4-120 operations: contains() of every key, size() and the final traversal must equal the model after every step; evidence counts the cases in which the container really grew. Found and fixed: F18; known finding F7 (Cuckoo resize drops an element)',
+        'level_note': 'trusted base: std::set as reference, the forked-case runner; cuckoo key sets are limited to one probe set per class of keys that collide in BOTH functions (beyond arity x probe-set size such keys can never be stored and insert() resizes forever); '
+                      'cases ended by the 2 s alarm or the 1 GB limit are reported as inconclusive, never as violations',
+    },
     'C19': {
         'technique': 'runtime monitoring: an iterating thread records every yielded element (touching the current element repeatedly) while updaters run; completeness / multiplicity / order oracle over keys surely present for the whole pass; per-key WGL incl. erase_at as "remove exactly this item"; destroyed-item poison check and ASan',
         'level_text': 'Passes over IterableList (HP/DHP), MichaelHashSet and SplitListSet over IterableList, FeldmanHashSet (HP/DHP/RCU, forward and reverse, keys sharing a 12-bit prefix so array nodes split under the iterator): the current element never carries the destructor poison '
